@@ -434,7 +434,7 @@ def maximally_coherent_state(d:int, return_dm:bool=False):
     '''
     assert d>=1
     if return_dm:
-        ret = np.eye(d, dtype=np.float64) / d
+        ret = np.ones((d,d), dtype=np.float64) / d
     else:
         ret = np.ones(d, dtype=np.float64) / np.sqrt(d)
     return ret
